@@ -9,7 +9,7 @@ FROM_CONFIG = '<rasn_compiler::generator::rasn::Rasn as rasn_compiler::generator
 ROOTS = list(bridge.GEN_ROOTS) + [FROM_CONFIG]
 ASSUMPTIONS = [
     "relational, inside one symbolic run: the backend is built by the real Rasn::from_config (derive merging, parse_rust_derive_annotation through nom) from a Config whose four boolean options are free solver variables; generate_module runs from real MIR on the natively linked IR of a fixed module pair; every path is compared item by item with the projection obtained under the default configuration transformed by an independent reference for each documented option",
-    "custom_imports in {none, one, several}, type_annotations in {default, extra derives, extra non-derive attribute, derives listed twice, empty}",
+    "custom_imports in {none, one, several}, type_annotations in {default, extra derives, extra non-derive attribute, required and additional derives listed twice (adjacent, non-adjacent, inside one line), empty}",
     "the module pair contains a CHOICE with duplicate and unique payload types, an import, a SEQUENCE with DEFAULT, a LazyLock static and a const",
 ]
 TEXT = ("M DEFINITIONS AUTOMATIC TAGS ::= BEGIN IMPORTS Tb FROM Mb; C ::= CHOICE { a INTEGER, b BOOLEAN, c INTEGER, d Tb, e SEQUENCE { k NULL } } "
@@ -18,7 +18,9 @@ TEXT = ("M DEFINITIONS AUTOMATIC TAGS ::= BEGIN IMPORTS Tb FROM Mb; C ::= CHOICE
 DEFAULT_ANN = '#[derive(AsnType, Debug, Clone, Decode, Encode, PartialEq, Eq, Hash)]'
 IMPORT_SETS = [[], ['foo::bar'], ['foo::bar', 'baz::*', 'crate::qux::Quux']]
 ANN_SETS = {'default': [DEFAULT_ANN], 'extra-derive': [DEFAULT_ANN, '#[derive(Default)]'], 'non-derive': [DEFAULT_ANN, '#[non_exhaustive]'],
-            'twice': [DEFAULT_ANN, '#[derive(Debug, Clone, PartialOrd)]'], 'empty': []}
+            'twice': [DEFAULT_ANN, '#[derive(Debug, Clone, PartialOrd)]'], 'empty': [],
+            # derives outside the required set listed more than once, adjacent and not adjacent
+            'default-twice': [DEFAULT_ANN, DEFAULT_ANN], 'overlap': ['#[derive(Eq, Hash)]', '#[derive(Serialize, Eq, Hash)]'], 'repeat-in-line': ['#[derive(Eq, Hash, Eq)]']}
 REQUIRED = ['AsnType', 'Debug', 'Clone', 'Decode', 'Encode', 'PartialEq']
 FLAGS = ['default_wildcard_imports', 'generate_from_impls', 'no_std_compliant_bindings', 'opaque_open_types']
 
@@ -27,6 +29,8 @@ def jobs(tier, seed):
     js = []
     for i, _ in enumerate(IMPORT_SETS):
         for a in ANN_SETS:
+            if tier == 'quick' and i > 0 and a in ('default-twice', 'overlap', 'repeat-in-line'):
+                continue
             js.append(f"cfg-{i}-{a}")
     return js
 
